@@ -373,6 +373,17 @@ func (s *Sys) fails(idx int) bool {
 	return false
 }
 
+// pos is the input position of the element a user function was called with:
+// for sequential stages the call index (the stage visits elements in order,
+// and the oracle checks that separately), for fork stages the index of the
+// (distinct) element.
+func (s *Sys) pos(callIdx, x int) int {
+	if s.fork || callIdx < 0 {
+		return s.indexOf(x)
+	}
+	return callIdx
+}
+
 func (s *Sys) indexOf(x int) int {
 	if len(s.P.Inputs) == 0 {
 		return -1
@@ -389,8 +400,9 @@ func (s *Sys) indexOf(x int) int {
 // positions.
 func (s *Sys) elemFn() func(int) (int, error) {
 	return func(x int) (int, error) {
-		defer s.E.Leave(s.Calls, s.E.Enter(s.Calls, x))
-		if s.P.Mode != "pure" && s.fails(s.indexOf(x)) {
+		idx := s.E.Enter(s.Calls, x)
+		defer s.E.Leave(s.Calls, idx)
+		if s.P.Mode != "pure" && s.fails(s.pos(idx, x)) {
 			s.E.Fault("fn_error")
 			return 0, elemErr{x}
 		}
@@ -414,8 +426,9 @@ func (s *Sys) visitFn() func(int) (int, error) {
 
 func (s *Sys) arrowFn() func(context.Context, int, chan<- int) error {
 	return func(ctx context.Context, x int, out chan<- int) error {
-		defer s.E.Leave(s.Calls, s.E.Enter(s.Calls, x))
-		if s.P.Mode != "pure" && s.fails(s.indexOf(x)) {
+		idx := s.E.Enter(s.Calls, x)
+		defer s.E.Leave(s.Calls, idx)
+		if s.P.Mode != "pure" && s.fails(s.pos(idx, x)) {
 			s.E.Fault("fn_error")
 			return elemErr{x}
 		}
